@@ -20,7 +20,16 @@ LEVEL = "proof"
 EXPLANATION = ("Real IntegratedLogicAnalyzer per (sample_depth, samples_pretrigger, domain); ghosts = capture sequencer, input "
                "history, completion flag, symbolic witness sample (index n, value v); invariant ties FSM/write pointer/"
                "write enable/delay pipeline/buffer word n to the ghosts; ensures from the statement. Unbounded 1-induction; "
-               "the witness index is arbitrary, so the read-back clause holds for every n.")
+               "the witness index is arbitrary, so the read-back clause holds for every n. "
+               "Wrappers (contracts/w6_util_wrappers.py): real StreamILA / SyncSerialILA / AsyncSerialILA with the real analyzer (and "
+               "SPI / UART children) inside: the leaf clauses re-proved at the child's ports with the wrapper's parameters and inputs, "
+               "the child's trigger = wrapper trigger only while idle, read address walks 0..depth-1, n-th word on the stream / n-th "
+               "word loaded into the SPI shifter = n-th recorded sample, first/last framing, exactly depth words per trigger.")
+ASSUMPTIONS = ["StreamILA with o_domain != domain (AsyncFIFOBuffered clock crossing: asynchronous resets, two real clocks) is outside the technique",
+               "SyncSerialILA: the read-out clauses hold while `complete` is high (the wrapper does not gate triggers; a trigger during an SPI "
+               "read-out restarts the capture by design); word 0 of a transaction needs CS low for >= 4 cycles before it rises",
+               "SyncSerialILA / AsyncSerialILA: the serial bit streams themselves are the children's contracts (C50 / C49); here only what "
+               "the children are handed (call obligations) is proved"]
 
 
 def make(D, P, domain="sync", widths=(4, 1)):
@@ -121,3 +130,7 @@ def contracts(tier):
         yield ("IntegratedLogicAnalyzer", f"depth{dp}_pre{p}_{dom}", make(dp, p, dom))
     if tier != "quick":
         yield ("IntegratedLogicAnalyzer", "depth6_pre1_wide", make(6, 1, "sync", widths=(8, 3, 1, 16)))
+    # caller-side obligations + end-to-end read-out clauses for the wrappers in the same file (StreamILA, SyncSerialILA,
+    # AsyncSerialILA), each with the real IntegratedLogicAnalyzer inside: contracts/w6_util_wrappers.py
+    from contracts.w6_util_wrappers import ila_wrapper_contracts
+    yield from ila_wrapper_contracts(tier)
